@@ -11,6 +11,12 @@ THEOREMS = [
     "Mpc.C07_bridge_plainEval",
     "Mpc.C07_adder_compute_model",
     "Mpc.C07_sub",
+    "Mpc.C07_ksAdder_stages",
+    "Mpc.C07_ksAdder",
+    "Mpc.C07_ksAdder_too_few_stages_wrong",
+    "Mpc.C07_ksSub_stages",
+    "Mpc.C07_ksSub",
+    "Mpc.C07_ksSub_too_few_stages_wrong",
     "Mpc.C07_ucmp",
     "Mpc.C07_intCmp_partial",
     "Mpc.C07_intCmp_equal_width",
@@ -26,7 +32,11 @@ THEOREMS = [
     "Mpc.C07_bittest",
     "Mpc.C07_index",
     "Mpc.C07_hamming",
-    "Mpc.C07_arrayMult_small",
+    "Mpc.C07_arrayMult",
+    "Mpc.C07_udiv",
+    "Mpc.C07_umod",
+    "Mpc.C07_idiv_equal_width",
+    "Mpc.C07_imod_equal_width",
 ]
 
 # builder called per SSA opcode in compiler/ssa/circuitgen.go (T2)
@@ -148,8 +158,8 @@ def run(ctx):
         "Theorems (Props/C07.lean, all operand/result widths, all values, both prologue variants): ripple adder exact; "
         "ripple subtractor exact for every result width; unsigned comparators; signed comparators "
         "(exact for equal widths, zero-extension semantics otherwise, negation witness); Eq/Neq; MUX; bitwise "
-        "AND/OR/XOR/Clear; logical AND/OR; bit tests; NewIndex; Hamming (Yao, width >= 1); array multiplier: "
-        "kernel-checked enumeration at operand widths <= 2 for every result width 1..7; bridge lemma to the C01 plain evaluator. "
+        "AND/OR/XOR/Clear; logical AND/OR; bit tests; NewIndex; Hamming (Yao, width >= 1); Kogge-Stone adder/subtractor "
+        "(all widths, stage count shown necessary); array multiplier (all operand and result widths); bridge lemma to the C01 plain evaluator. "
         "Tie T4: for every modelled builder (adders, subtractors incl. Kogge-Stone, array/Karatsuba/Wallace "
         "multipliers, comparators, MUX, index, bitwise, Hamming) the Lean generator reproduces the real cc.Gates "
         "gate for gate (canonical first-occurrence numbering) on all width triples listed under coverage; T3: sample "
